@@ -825,6 +825,12 @@ func C17(c *core.Ctx) {
 	if c.HasViolation() {
 		return
 	}
+	// a retained message replaced while a subscriber's processor holds the old one for
+	// delivery (shared with C08): the stream to that subscriber stays whole packets
+	c08schedFor(c, "C17", "full outgoing ring subscribes")
+	if c.HasViolation() {
+		return
+	}
 	// every remaining length 5..300 on three paths into a connection's outgoing ring
 	// (forwarded as received, encoded from the fields, re-encoded after a QoS downgrade)
 	framingSweep(c, "C17")
